@@ -105,6 +105,8 @@ fn step_check(
 ) -> Vec<i128> {
     let (c, k, v) = op;
     let mut expect_cb: Vec<(u64, u64)> = vec![];
+    // entries an explicit remove/clear takes out: the property neither demands nor forbids a callback for them
+    let mut tolerated: Vec<(u64, u64)> = vec![];
     let mut obs: Vec<i128> = match c {
         0 => { let w = refs[shard_of(k)].get(k); let g = get(k);
                if g != w { fails.push(format!("get({}) = {:?}, the most recent value put and not evicted/removed is {:?}", k, g, w)); }
@@ -116,12 +118,13 @@ fn step_check(
                    Err(e) => { fails.push(format!("put({},{}) refused: {}", k, v, e)); vec![-1] }
                } }
         2 => { let w = refs[shard_of(k)].remove(k); let g = remove(k);
+               if let Some(wv) = w { tolerated.push((k, wv)); }
                if g != w { fails.push(format!("remove({}) = {:?}, expected {:?}", k, g, w)); }
                enc_opt(g) }
         3 => { let w = refs[shard_of(k)].contains(k); let g = contains(k);
                if g != w { fails.push(format!("contains_key({}) = {}, expected {}", k, g, w)); }
                vec![g as i128] }
-        4 => { for r in refs.iter_mut() { r.ents.clear(); }
+        4 => { for r in refs.iter_mut() { tolerated.extend(r.ents.iter().map(|e| (e.0, e.1))); r.ents.clear(); }
                if let Err(e) = clear() { fails.push(format!("clear refused: {}", e)); }
                vec![0] }
         _ => { let w: usize = refs.iter().map(|r| r.ents.len()).sum(); let g = len();
@@ -133,7 +136,11 @@ fn step_check(
     let new_cb: Vec<(u64, u64)> = lg[*seen..].to_vec();
     *seen = lg.len();
     drop(lg);
-    if new_cb != expect_cb {
+    let cb_ok = if c == 2 || c == 4 {
+        let mut pool = tolerated.clone();
+        new_cb.iter().all(|e| match pool.iter().position(|p| p == e) { Some(i) => { pool.remove(i); true } None => false })
+    } else { new_cb == expect_cb };
+    if !cb_ok {
         fails.push(format!("op {:?}: eviction callback got {:?}, the least recently used entry to evict was {:?}", op, new_cb, expect_cb));
     }
     for (ek, _) in &new_cb {
@@ -161,7 +168,8 @@ fn lru_history(cx: &mut Ctx, cap: usize, preset: u64, nkeys: u64, ops: &[Op], fo
     cx.sum.eval(&cell, &format!("lru {} {} {:?}", cap, preset, ops), ops.iter().filter(|o| o.0 == 1).count() > cap);
     let cj = json!({"cell": "lru", "cap": cap, "preset": preset, "nkeys": nkeys, "ops": ops_json(ops)});
     let log = Rec(Arc::new(Mutex::new(vec![])));
-    let m = match guarded(|| LruMap::<u64, u64, Rec>::with_config_and_callback(lru_config(preset, cap), log.clone())) {
+    let m = match guarded(|| if preset % 4 == 0 { LruMap::<u64, u64, Rec>::with_eviction_callback(cap, log.clone()) }
+                             else { LruMap::<u64, u64, Rec>::with_config_and_callback(lru_config(preset, cap), log.clone()) }) {
         Ok(Ok(m)) => m,
         Ok(Err(e)) => { if cap >= 1 { cx.sum.fail(&cell, None, cj, &format!("constructor refused capacity {}: {:?}", cap, e)); } return; }
         Err(p) => { cx.sum.fail(&cell, None, cj, &format!("constructor panicked: {}", p)); return; }
@@ -185,7 +193,13 @@ fn lru_history(cx: &mut Ctx, cap: usize, preset: u64, nkeys: u64, ops: &[Op], fo
     if let Err(p) = r { fails.push(format!("panicked: {}", p)); }
     let before = log.0.lock().unwrap().len();
     drop(m);
-    if log.0.lock().unwrap().len() != before { fails.push("dropping the map invoked the eviction callback for entries that were not evicted to make room".into()); }
+    {   // dropping the map may or may not report what it still held, but nothing else and nothing twice
+        let lg = log.0.lock().unwrap();
+        let mut pool: Vec<(u64, u64)> = refs[0].ents.iter().map(|e| (e.0, e.1)).collect();
+        if !lg[before..].iter().all(|e| match pool.iter().position(|p| p == e) { Some(i) => { pool.remove(i); true } None => false }) {
+            fails.push(format!("dropping the map invoked the eviction callback with {:?}, which it did not hold", &lg[before..]));
+        }
+    }
     let modelled = fails.iter().all(|f| !f.contains("panicked"));
     if let Some(f) = fails.first() { cx.sum.fail(&cell, None, cj.clone(), f); }
     if modelled && (force || cx.n_lru < cx.budget_lru) {
@@ -215,7 +229,8 @@ fn cmap_history(cx: &mut Ctx, total: usize, nshards: usize, preset: u64, strat: 
     let class: Option<&str> = if strat == 1 && nshards > 1 { Some("concurrent_round_robin_routing") } else { None };
     let log = Rec(Arc::new(Mutex::new(vec![])));
     let valid_cfg = nshards >= 1 && nshards.is_power_of_two() && percap >= 1;
-    let m = match guarded(|| ConcurrentLruMap::<u64, u64, Rec>::with_config_and_callback(cmap_config(preset, total, nshards, strat), log.clone())) {
+    let m = match guarded(|| if preset == 0 && strat == 0 { ConcurrentLruMap::<u64, u64, Rec>::with_eviction_callback(total, nshards, log.clone()) }
+                             else { ConcurrentLruMap::<u64, u64, Rec>::with_config_and_callback(cmap_config(preset, total, nshards, strat), log.clone()) }) {
         Ok(Ok(m)) => m,
         Ok(Err(e)) => { if valid_cfg { cx.sum.fail(&cell, None, cj, &format!("constructor refused a valid configuration: {:?}", e)); } else { cx.sum.dist("cmap_config_refused"); } return; }
         Err(p) => { cx.sum.fail(&cell, None, cj, &format!("constructor panicked: {}", p)); return; }
@@ -318,8 +333,9 @@ type POp = (u8, u64, u64, u64); // 0 read f off len | 1 prefetch f off len | 2 i
                                 // 4 read_with_prefetch f off len (ahead = len) | 5 read_batch of this one read | 6 overwrite f off len (+ invalidate_range)
 
 fn pc_config(preset: u64, capbytes: usize) -> PageCacheConfig {
-    let c = match preset { 1 => PageCacheConfig::performance_optimized().with_huge_pages(false), 2 => PageCacheConfig::memory_optimized(), 3 => PageCacheConfig::security_optimized(), _ => PageCacheConfig::balanced() };
-    c.with_capacity(capbytes)
+    let c = match preset { 1 => PageCacheConfig::performance_optimized(), 2 => PageCacheConfig::memory_optimized(), 3 => PageCacheConfig::security_optimized(), _ => PageCacheConfig::balanced() };
+    if capbytes == 0 { return c; } // the preset as shipped (64 MB / 256 MB with huge pages / 32 MB / 64 MB)
+    c.with_huge_pages(false).with_capacity(capbytes).with_shards([1u32, 2, 4, 8, 64][(capbytes / 7 + preset as usize) % 5])
 }
 
 fn pops_json(ops: &[POp]) -> Value { json!(ops.iter().map(|o| json!([o.0, o.1, o.2, o.3])).collect::<Vec<_>>()) }
@@ -358,7 +374,7 @@ fn pc_history(cx: &mut Ctx, single: bool, preset: u64, capbytes: usize, files: &
                     "files": files.iter().map(|f| json!([f.0, f.1])).collect::<Vec<_>>(), "ops": pops_json(ops)});
     let cache = match guarded(|| if single { SingleLruPageCache::new(pc_config(preset, capbytes)).map(Pc::Single) } else { LruPageCache::new(pc_config(preset, capbytes)).map(Pc::Multi) }) {
         Ok(Ok(c)) => c,
-        Ok(Err(e)) => { if capbytes > 0 { cx.sum.fail(&cell, None, cj, &format!("constructor refused: {:?}", e)); } return; }
+        Ok(Err(e)) => { cx.sum.fail(&cell, None, cj, &format!("constructor refused: {:?}", e)); return; }
         Err(p) => { cx.sum.fail(&cell, None, cj, &format!("constructor panicked: {}", p)); return; }
     };
     let mut contents: Vec<Vec<u8>> = vec![];
@@ -425,7 +441,7 @@ fn pc_history(cx: &mut Ctx, single: bool, preset: u64, capbytes: usize, files: &
     if modelled && (force || cx.n_pc < cx.budget_pc) {
         cx.n_pc += 1;
         let fs = format!("[{}]", files.iter().zip(fids.iter()).map(|((s, l), f)| format!("({}, ({}, {}))", f, s, l)).collect::<Vec<_>>().join("; "));
-        cx.terms[2].push((format!("CPc {} {} {} [{}] [{}]", PAGE_SIZE, capbytes, fs, mops.join("; "), mobs.join("; ")), cj));
+        cx.terms[2].push((format!("CPc {} {} {} [{}] [{}]", PAGE_SIZE, pc_config(preset, capbytes).capacity, fs, mops.join("; "), mobs.join("; ")), cj));
     }
 }
 
@@ -713,7 +729,7 @@ pub fn run(args: &Args) {
     for i in 0..n_pc {
         let nf = if rng.chance(1, 3) { 2 } else { 1 };
         let files: Vec<(u64, u64)> = (0..nf).map(|_| (rng.below(200), if rng.chance(1, 10) { rng.below(4 * ps) } else { *rng.pick(&sizes) })).collect();
-        let capbytes = *rng.pick(&[ps as usize, 2 * ps as usize, 2 * ps as usize, 3 * ps as usize, ps as usize - 1, 1, 64 * ps as usize]);
+        let capbytes = *rng.pick(&[ps as usize, 2 * ps as usize, 2 * ps as usize, 3 * ps as usize, ps as usize - 1, 1, 64 * ps as usize, 0]);
         let n = rng.range(3, 14) as usize;
         let overwrite = rng.chance(1, 4);
         let ops = gen_pops(&mut rng, &files, n, overwrite);
